@@ -2,6 +2,6 @@
 range task's sub-ranges, the delete-range task and the refusal of reads below the learned transaction safe point."""
 from checks.txn_common import run_txn_check
 def run(tier, seed, replay=None):
-    return run_txn_check("C14", [("c14", 100, 10), ("c14rt", 200, 4000)], tier, seed, replay,
+    return run_txn_check("C14", [("c14", 100, 40), ("c14rt", 200, 4000)], tier, seed, replay,
                          assumptions=["GC lock resolution is driven through the exported tikv.ResolveLocksForRange (the function KVStore.GC hands to the range task) with scan limits 1..3",
                                       "delete-range scenarios destroy data on purpose: transactional rules are not applied to them"])
